@@ -15,6 +15,8 @@
                                                      a leading space (decode error / non-stream => next page);
                                                      TextExtractor (Model/Content.lean) error => exit (260-342)
 
+  `run = processFile ∘ parseDataE`; `processFile` = root lookup, `dumpRoot`, then `afterCheck` applied to the verdict of
+  `typeCheck` (type_check_file's exit, then file_extract_text = `PageDom.toPageDom` + `pagesLoop`).
   `run : Bytes -> Outcome` has exactly three kinds of result: `completed` (exit status 0), `rejected`
   (`exit_log!` = process::exit(1), anywhere), `panic site` (a Rust partial operation of one of the stage
   models fired, or the fuel of one of the loops modelled with fuel ran out).  Every stage model is reused
@@ -257,6 +259,18 @@ def pagesLoop (d : Nat) : List (PageDom.ObjId × PageDom.PageKid) → Outcome
 
 /-! ## process_file -/
 
+/-- `type_check_file`'s verdict, then `file_extract_text`.  (A function of the verdict, so that statements about
+    it do not make the kernel evaluate the type-check run on the shipped specification.) -/
+def afterCheck (l : LoadedE) (rootObj : Obj) : TC.Outcome → Outcome
+  | .reject _ => .rejected                                      -- "Type Check Error"
+  | .panic s => .panic s
+  | .outOfFuel => .panic "check_type: fuel"
+  | .accept =>
+    match PageDom.toPageDom l.defs rootObj with
+    | .err _ => .rejected                                       -- "Page DOM error"
+    | .panic s => .panic s
+    | .ok (_, dom) => pagesLoop (l.max - l.cur) dom.pages
+
 /-- everything after `parse_file` -/
 def processFile (l : LoadedE) : Outcome :=
   match ObjStm.defsGet l.root l.defs with
@@ -265,16 +279,7 @@ def processFile (l : LoadedE) : Outcome :=
     match dumpRoot l.enc l.defs rootObj with
     | .panic s => .panic s
     | .reject => .rejected                                      -- not produced by `dumpRoot`
-    | .ok _ =>
-      match typeCheck (toGraph l.defs) (toTC rootObj) with
-      | .reject _ => .rejected                                  -- "Type Check Error"
-      | .panic s => .panic s
-      | .outOfFuel => .panic "check_type: fuel"
-      | .accept =>
-        match PageDom.toPageDom l.defs rootObj with
-        | .err _ => .rejected                                   -- "Page DOM error"
-        | .panic s => .panic s
-        | .ok (_, dom) => pagesLoop (l.max - l.cur) dom.pages
+    | .ok _ => afterCheck l rootObj (typeCheck (toGraph l.defs) (toTC rootObj))
 
 /-- the whole program on the bytes of the file -/
 def run (bs : Bytes) : Outcome :=
